@@ -160,6 +160,14 @@ Crash(site) ==
     /\ nev' = nev + 1
     /\ UNCHANGED <<blobs, dprime, nupd>>
 
+MoveFails ==    \* the rename into the store raises (disk full, permission denied): the process lives on, the
+                \* update is abandoned with an error, its staged file stays in the staging directory
+    /\ up /\ pc = "checked" /\ ~uex /\ nev < MaxEv
+    /\ pc' = "idle" /\ Forget /\ rep' = "none"
+    /\ orph' = StgKinds
+    /\ nev' = nev + 1
+    /\ UNCHANGED <<up, blobs, prime, dprime, nupd>>
+
 Close ==
     /\ up /\ pc = "idle" /\ nev < MaxEv
     /\ up' = FALSE /\ dprime' = prime /\ rep' = "none"
@@ -180,6 +188,7 @@ Next ==
     \/ \E reach \in BOOLEAN : Record(reach)
     \/ Answer
     \/ \E s \in AllSites : Crash(s)
+    \/ MoveFails
     \/ Close \/ Purge
 
 Spec == Init /\ [][Next]_vars
